@@ -27,6 +27,18 @@ STORES = {
 }
 
 PROPS = {
+    "C13": {
+        "tiers": tiers(2000, 60000, quick_budget=40),
+        "rule": "rapid-generated scenario: 1-2 publisher tasks x 1-8 publishes through a fault-injecting decorator over MemoryStore or SQLite; fault plan addresses the k-th Append: fail before effect, lose the acknowledgement after effect, block until the persistence timeout (5/50 ms simulated) expires; unencodable events (channel, func, NaN) at drawn positions; with/without error handler (optionally re-entrant: it publishes an alert on the same bus), optional Observability, 1-3 handlers of mixed kinds, + choice tape. Non-trivial: at least one persistence failure happened; distinct = (scenario shape, schedule trace hash, history hash).",
+        "components": dict(REAL_BUS, **STORES),
+        "assumptions": COMMON_ASSUME + ["an Append whose acknowledgement is lost is reported as failed by the bus although the record is durable: the oracle expects exactly that record in the log and one error report"],
+    },
+    "C09": {
+        "tiers": tiers(2000, 60000, quick_budget=40),
+        "rule": "rapid-generated scenario: New() with a random permutation of a random subset of 11 bus options always containing WithStore (hooks legacy/context before/after, Observability, error/panic handlers, subscription store, batch size, timeout), store = MemoryStore or SQLite behind a yielding decorator, 1-4 publisher tasks x 1-5 publishes of four event-type shapes (value, pointer, custom name on value receiver, custom name on pointer receiver) x 6 payload variants, sync or async handlers that read the store and look for the event they are handling, + choice tape. Non-trivial: >=1 decision point with >=2 ready tasks or more than one option; distinct = (scenario shape, schedule trace hash, history hash).",
+        "components": dict(REAL_BUS, **STORES),
+        "assumptions": COMMON_ASSUME + ["the store is fault-free here (failures are C13)"],
+    },
     "C10": {
         "tiers": tiers(1500, 40000, quick_budget=40),
         "rule": "rapid-generated operation sequence (1-30, sometimes 30-120 so the log passes 10 and 100 entries) of Append / Read(o,n) / ReadStream(o) with early stop / SaveOffset / LoadOffset against one of MemoryStore, SQLite (stream batch 0/1/2/3/100) or durable-streams (chunk default/64/256 bytes), resume offsets drawn only from offsets the same store returned (append results, event offsets, next offsets) or oldest, limits from {-1,0,1,2,3,7,1000}, events with arbitrary type strings / JSON documents / timestamps (years 1-9999, ns, six zone shapes); compared call by call with a single-copy log model; 20% of runs add 2-4 concurrent client tasks checked with porcupine; durable-streams runs may lose requests/responses. Non-trivial: >2 operations; distinct = (scenario shape, schedule trace hash, history hash).",
